@@ -68,6 +68,10 @@ checks = {
    technique="bounded-exhaustive enumeration of hostile zone text: all strings ≤4-5 tokens over a 22-token alphabet × 4 prefixes × origins × include settings (off / counting FS / self-including FS / 8-deep chain / on-disk sentinel), token and comment lengths around multiples of the lexer's buffer size inside and outside parentheses, unbalanced parentheses at every token boundary, nested $GENERATE spellings and range bounds — run through the real ZoneParser/NewRR with panic capture, watchdog, allocation bound, Open-call counting",
    text="Parsing terminates without panic within the allocation bound, errors are sticky and positioned (line ≥ 1), no file is opened unless includes are allowed, include nesting stops at the depth limit, nested $GENERATE is rejected — on every enumerated input.",
    note="Trusted: the counting fs.FS and on-disk sentinel; runtime allocation counters. Arbitrary byte strings beyond the token alphabet are not covered."),
+ "C13": dict(cat="model_checking", eng="E2", ref="§5 C13",
+   technique="stateless model checking of the real server.go under a controlled cooperative scheduler (build-time AST rewrite: sync→vsync, go/close/select→vsched, simulated net.Listener/Conn/PacketConn): depth-first enumeration of ALL schedules of 12 closed scenarios (serve ∥ 0-2 clients ∥ Shutdown; blocked handler + cancelled context; double start/shutdown; TCP and PacketConn) up to a preemption bound of 1-3 (map iteration order explored as a choice), with a vector-clock happens-before race check on instrumented Server/response field accesses in every schedule and replay-twice before any report",
+   text="In every explored schedule: no deadlock, Shutdown returns only after started handlers exited, no handler starts afterwards, written replies reach their clients, the serve call returns nil, nothing (goroutine, connection, listener) is left when Shutdown returns, double start/stop return errors, no happens-before race.",
+   note="Trusted: harness/shim (scheduler, vsync, simnet: ≈900 lines), the rewriter (fails loudly on constructs it does not model). Time model: pending deadlines never fire. *net.UDPConn and crypto/tls paths are not under the scheduler. Bound per scenario is in the evidence; the restart-during-shutdown defect is a known finding."),
 }
 na_reason = "check not built yet in this session (planned in DESIGN.md §5); not claimed until it runs"
 m = {
@@ -75,7 +79,8 @@ m = {
  "setup_cmd": "cd /verif && ./setup.sh",
  "hooks": {"guard": "verif", "enable": "none committed in /repo: instrumentation is injected at build time with `go build -tags verif -overlay` (AST-rewritten copies of server.go/serve_mux.go + virtual shim packages), see DESIGN.md §3", "baseline_off_cmd": BASE, "source_commits": [], "add_only": True},
  "engines": [
-  {"name": "E1/E3 vcheck", "path": "harness/cmd/vcheck", "serves_properties": sorted(k for k,v in checks.items() if v["eng"] in ("E1","E3","E1+E3")), "kind_free_text": "process-sharded bounded-exhaustive enumeration of inputs / programs / fault scripts against reference models, on the real package"},
+  {"name": "E2 vsched", "path": "harness/cmd/vsched", "serves_properties": ["C12", "C13", "C14"], "kind_free_text": "controlled-scheduler stateless model checker over the real server code (preemption-bounded DFS, vector-clock race check, replay discipline)"},
+  {"name": "E1/E3 vcheck", "path": "harness/cmd/vcheck", "serves_properties": sorted(k for k,v in checks.items() if v["eng"] in ("E1","E3","E1+E3","E1+E2","E3+E2")), "kind_free_text": "process-sharded bounded-exhaustive enumeration of inputs / programs / fault scripts against reference models, on the real package"},
  ],
  "checks": [], "not_applicable": [],
  "notes": "run.sh <id> <quick|thorough> rebuilds from /repo's working tree. Known findings: known_findings.txt.",
